@@ -106,6 +106,17 @@ class FragileSerDes(SerDes):
         return from_tagged(json.loads(data)["v"])
 
 
+class TextSerDes(SerDes):
+    """A user serializer for plain text (CSV, a line protocol ...): every string - the empty one included - is a valid
+    encoding; decoding wraps the text so that 'decoded empty text' differs from 'no result'."""
+
+    def serialize(self, value, ctx):
+        return value[1] if isinstance(value, list) else str(value)
+
+    def deserialize(self, data, ctx):
+        return ["text", data]
+
+
 class _BotoProxy:
     """The service client a warm handler was decorated with: forwards to the current invocation's fake client."""
 
@@ -694,8 +705,9 @@ class Interp:
 
     def _invoke(self, st, ctx, path):
         cfg = None
-        if st.get("tenant") is not None or st.get("timeout"):
-            cfg = InvokeConfig(timeout=Duration(seconds=st.get("timeout", 0)), tenant_id=st.get("tenant"))
+        if st.get("tenant") is not None or st.get("timeout") or st.get("serdes") == "text":
+            cfg = InvokeConfig(timeout=Duration(seconds=st.get("timeout", 0)), tenant_id=st.get("tenant"),
+                               serdes_result=TextSerDes() if st.get("serdes") == "text" else None)
         payload = st.get("payload")
         return self.durable(path, "invoke", lambda: ctx.invoke(st["fn"], payload, name=path, config=cfg))
 
